@@ -33,6 +33,8 @@ var consumerTable = map[string]string{
 func checkJSONConsumers(w *World, r *Result, rule string) int {
 	n := 0
 	seen := map[string]bool{}
+	seenPkg := map[string]bool{}
+	jsonPkg := map[string]int{} // json loops found in unnamed helpers, per package
 	for _, fl := range fieldLoops(w) {
 		if fl.kind != "StructField" {
 			continue
@@ -41,14 +43,36 @@ func checkJSONConsumers(w *World, r *Result, rule string) int {
 		cons := "loop over " + fl.over
 		pos := w.Pos(fl.rs.Pos())
 		if !ok {
-			r.bad(rule, fl.fn.Name, cons, pos, "a loop over struct fields that is not classified (json / go / sql consumer): classify it so that its field filter and naming can be checked")
-			continue
+			// a loop in a function the table does not name (an extracted helper): it consumes what the other loops
+			// of its package consume, when they all agree
+			kinds := map[string]bool{}
+			for name, k := range consumerTable {
+				if f := w.FuncBy[name]; f != nil && f.Pkg == fl.fn.Pkg {
+					kinds[k] = true
+				}
+			}
+			if len(kinds) == 1 {
+				for k := range kinds {
+					kind = k
+				}
+				seenPkg[fl.fn.Pkg.PkgPath] = true
+				if kind != "json" {
+					r.ok(rule, fl.fn.Name, cons, pos, "a loop over struct fields in a package whose field loops are all "+kind+" consumers (Go field names, not JSON keys): no JSON key is produced here", true)
+					continue
+				}
+			} else {
+				Undecided("loop over struct fields at %s in %s: its package has json and non-json consumers and the function is not classified", pos, fl.fn.Name)
+			}
 		}
 		seen[fl.fn.Name] = true
+		seenPkg[fl.fn.Pkg.PkgPath] = true
 		if kind != "json" {
 			continue
 		}
 		n++
+		if !ok {
+			jsonPkg[fl.fn.Pkg.PkgPath]++
+		}
 		info := fl.pkg.TypesInfo
 		// 1. first statement is `if !f.Exported() { continue }`
 		first := false
@@ -106,6 +130,10 @@ func checkJSONConsumers(w *World, r *Result, rule string) int {
 	}
 	for k, v := range consumerTable {
 		if v == "json" && !seen[k] {
+			// its loop may have moved into a helper of the package, which was checked as a json consumer above
+			if f := w.FuncBy[k]; f != nil && jsonPkg[f.Pkg.PkgPath] > 0 {
+				continue
+			}
 			Undecided("json consumer %s has no loop over struct fields any more", k)
 		}
 	}
@@ -301,6 +329,29 @@ func defsIn(info *types.Info, fd *ast.FuncDecl, obj types.Object) []ast.Expr {
 						out = append(out, as.Rhs[i])
 					} else if len(as.Rhs) == 1 {
 						out = append(out, as.Rhs[0])
+					}
+				}
+			}
+		}
+		// `var x = e`
+		if vs, ok := n.(*ast.ValueSpec); ok {
+			for i, nm := range vs.Names {
+				if info.Defs[nm] == obj && obj != nil {
+					if len(vs.Values) == len(vs.Names) {
+						out = append(out, vs.Values[i])
+					} else if len(vs.Values) == 1 {
+						out = append(out, vs.Values[0])
+					}
+				}
+			}
+		}
+		// the variable bound by `switch v := x.(type)` in one of its clauses is x seen under that clause's type
+		if ts, ok := n.(*ast.TypeSwitchStmt); ok {
+			if as, ok := ts.Assign.(*ast.AssignStmt); ok && len(as.Rhs) == 1 {
+				for _, cl := range ts.Body.List {
+					if info.Implicits[cl] == obj && obj != nil {
+						out = append(out, as.Rhs[0])
+						break
 					}
 				}
 			}
